@@ -243,4 +243,58 @@ theorem bartlett_shape_sum {L : ℕ} (hL : L ≠ 0) :
   simp only [Finset.sum_const, Finset.card_range, nsmul_eq_mul, T]
   push_cast; ring
 
+/-! ## the small widths (where a harmonic does *not* cancel) -/
+
+/-- if `L ∣ m` every term is `cos(2π·integer) = 1` -/
+theorem sum_cos_dvd {L m : ℕ} (hL : L ≠ 0) (hm : L ∣ m) (n : ℕ) :
+    ∑ k ∈ range n, Real.cos (2 * Real.pi * m * k / L) = n := by
+  obtain ⟨q, rfl⟩ := hm
+  have hL' : (L:ℝ) ≠ 0 := by exact_mod_cast hL
+  have : ∀ k : ℕ, Real.cos (2 * Real.pi * ((L * q : ℕ) : ℝ) * k / L) = 1 := by
+    intro k
+    have e : 2 * Real.pi * ((L * q : ℕ) : ℝ) * k / L = ((q * k : ℕ) : ℝ) * (2 * Real.pi) := by
+      push_cast; field_simp
+    rw [e]; exact Real.cos_nat_mul_two_pi _
+  rw [Finset.sum_congr rfl (fun k _ => this k)]
+  simp
+
+theorem sum_np_cos1_dvd {L : ℕ} (hL : L ≠ 0) (hd : L ∣ 1) :
+    ∑ k ∈ range (L + 1), Real.cos (Real.pi * (2 * (k : ℝ) - (((L + 1 : ℕ) : ℝ) - 1)) / (((L + 1 : ℕ) : ℝ) - 1.0))
+      = -((L : ℝ) + 1) := by
+  simp only [np_angle hL, Real.cos_sub_pi]
+  rw [Finset.sum_neg_distrib, sum_cos_dvd hL hd]; push_cast; ring
+
+theorem sum_np_cos2_dvd {L : ℕ} (hL : L ≠ 0) (hd : L ∣ 2) :
+    ∑ k ∈ range (L + 1), Real.cos ((2.0:ℝ) * Real.pi * (2 * (k : ℝ) - (((L + 1 : ℕ) : ℝ) - 1)) / (((L + 1 : ℕ) : ℝ) - 1.0))
+      = (L : ℝ) + 1 := by
+  simp only [np_angle2 hL, Real.cos_sub_two_pi]
+  rw [sum_cos_dvd hL hd]; push_cast; ring
+
+/-- width 2: Hann `[0, 0]`, Hamming `[0.08, 0.08]`, Blackman `[0, 0]` (before normalisation) -/
+theorem shape_sum_two :
+    ∑ i ∈ range (1 + 1), npSample (α := ℝ) .hanning (1 + 1) i = 0 ∧
+    ∑ i ∈ range (1 + 1), npSample (α := ℝ) .hamming (1 + 1) i = 0.16 ∧
+    ∑ i ∈ range (1 + 1), npSample (α := ℝ) .blackman (1 + 1) i = 0 := by
+  have h1 := sum_np_cos1_dvd (L := 1) one_ne_zero (dvd_refl 1)
+  have h2 := sum_np_cos2_dvd (L := 1) one_ne_zero (one_dvd 2)
+  refine ⟨?_, ?_, ?_⟩ <;> simp only [npSample, npN_real, transc_cos, transc_pi]
+  · rw [Finset.sum_add_distrib, ← Finset.mul_sum, h1]
+    simp only [Finset.sum_const, Finset.card_range, nsmul_eq_mul]; norm_num
+  · rw [Finset.sum_add_distrib, ← Finset.mul_sum, h1]
+    simp only [Finset.sum_const, Finset.card_range, nsmul_eq_mul]; norm_num
+  · rw [Finset.sum_add_distrib, Finset.sum_add_distrib, ← Finset.mul_sum, ← Finset.mul_sum, h1, h2]
+    simp only [Finset.sum_const, Finset.card_range, nsmul_eq_mul]; norm_num
+
+/-- width 3: Blackman `[0, 1, 0]` (the second harmonic has period 1 there) -/
+theorem blackman_shape_sum_three : ∑ i ∈ range (2 + 1), npSample (α := ℝ) .blackman (2 + 1) i = 1 := by
+  have h1 := sum_np_cos1 (L := 2) (le_refl 2)
+  have h2 := sum_np_cos2_dvd (L := 2) two_ne_zero (dvd_refl 2)
+  simp only [npSample, npN_real, transc_cos, transc_pi]
+  rw [Finset.sum_add_distrib, Finset.sum_add_distrib, ← Finset.mul_sum, ← Finset.mul_sum, h1, h2]
+  simp only [Finset.sum_const, Finset.card_range, nsmul_eq_mul]; norm_num
+
+/-- width 1: `[1 / norm(1)]` -/
+theorem window_one (k : Kind) : window (α := ℝ) k 1 = [1.0 / normOf (α := ℝ) k ((1 : ℕ) : ℝ)] := by
+  simp [window, npWindow]
+
 end PdsVerif.C20.Win
